@@ -31,12 +31,14 @@ type State struct {
 	npre     int
 	depth    int
 	observes []Draw
+	bind     map[*Term]*Term // var -> constant facts implied by the path condition
+	ctx      *Ctx
 }
 
 func (e *Exec) newEpoch() int { e.epochs++; return e.epochs }
 
 func (e *Exec) newState() *State {
-	return &State{heap: map[*Object]Value{}, epoch: e.newEpoch()}
+	return &State{heap: map[*Object]Value{}, epoch: e.newEpoch(), ctx: e.ctx}
 }
 
 // fork returns a copy; both the original and the copy get fresh epochs so that
@@ -54,6 +56,8 @@ func (e *Exec) fork(st *State) *State {
 		npre:     st.npre,
 		depth:    st.depth,
 		observes: append([]Draw(nil), st.observes...),
+		bind:     st.bind,
+		ctx:      st.ctx,
 	}
 	for k, v := range st.heap {
 		n.heap[k] = v
@@ -68,6 +72,58 @@ func (st *State) assume(t *Term) {
 		return
 	}
 	st.pc = append(st.pc, t)
+	st.noteFact(t)
+}
+
+// noteFact records var == const facts implied by a new path-condition conjunct.
+func (st *State) noteFact(t *Term) {
+	if st.ctx == nil {
+		return
+	}
+	set := func(v, c *Term) {
+		nb := make(map[*Term]*Term, len(st.bind)+1)
+		for k, x := range st.bind {
+			nb[k] = x
+		}
+		nb[v] = c
+		st.bind = nb
+	}
+	switch t.op {
+	case OpVar:
+		if t.sort.K == KBool {
+			set(t, st.ctx.True)
+		}
+	case OpNot:
+		if v := t.args[0]; v.op == OpVar && v.sort.K == KBool {
+			set(v, st.ctx.False)
+		}
+	case OpAnd:
+		st.noteFact(t.args[0])
+		st.noteFact(t.args[1])
+	case OpEq:
+		a, b := t.args[0], t.args[1]
+		if b.IsConst() {
+			a, b = b, a
+		}
+		if !a.IsConst() || a.sort.K != KBV {
+			return
+		}
+		v := b
+		for v.op == OpZext || v.op == OpSext {
+			v = v.args[0]
+		}
+		if v.op != OpVar {
+			return
+		}
+		val := a.val & mask(v.sort.W)
+		if b.op == OpZext && a.val != val {
+			return
+		}
+		if b.op == OpSext && uint64(sext64(val, v.sort.W))&mask(b.sort.W) != a.val {
+			return
+		}
+		set(v, st.ctx.BVConst(val, v.sort.W))
+	}
 }
 
 func (e *Exec) newObject(t types.Type, name string) *Object {
@@ -138,7 +194,7 @@ func (e *Exec) walk(v Value, path []PathElem) Value {
 			g := e.ctx.Eq(pe.Idx, e.ctx.BVConst(uint64(k), 64))
 			m, ok := e.mergeValue(g, ek, acc, 0)
 			if !ok {
-				panic(unsupported("load at symbolic index of non-mergeable element type"))
+				panic(unsupported(fmt.Sprintf("load at symbolic index of non-mergeable element type (%s vs %s)", describe(ek), describe(acc))))
 			}
 			acc = m
 		}
